@@ -114,10 +114,14 @@ impl GenerationPass for LivenessPass {
                     .reduce(|acc, x| acc & x)
                     .unwrap_or_else(Register::all)
             };
+        #[cfg(rva_verif)]
+        crate::verif_hooks::pass_begin("udef", cfg);
         let mut changed = true;
         while changed {
             changed = false;
             for node in cfg.iter() {
+                #[cfg(rva_verif)]
+                let before = defined_before(&node, &visited);
                 let u_def = if let Some((func, _)) = node.calls_to_from_cfg(cfg) {
                     // u_def[n] = (AND u_def[s] for all s in prev[n]) - kill[n] | (u_def[F_exit] AND return-registers)
                     // kill[n] = caller-saved
@@ -149,8 +153,12 @@ impl GenerationPass for LivenessPass {
                     defined_before(&node, &visited) | node.kill_reg()
                 };
                 changed |= node.set_u_def(u_def);
+                #[cfg(rva_verif)]
+                crate::verif_hooks::visit_udef(&node, before, changed);
                 visited.insert(node);
             }
+            #[cfg(rva_verif)]
+            crate::verif_hooks::sweep_end("udef", None, changed);
         }
         Ok(())
     }
